@@ -162,6 +162,36 @@ Theorem psd_microporous_widths_solve_named_equation_partial : forall minimise, m
 Proof. exact micro_widths_solve_named_equation_l. Qed.
 Print Assumptions psd_microporous_widths_solve_named_equation_partial.
 
+(* psd_microporous called WITHOUT an adsorbate_model: the parameter record is assigned in exactly one place, from the isotherm's own
+   adsorbate - four stored properties, liquid_density(isotherm.temperature), molar_mass() - and no function of psd_micro.py writes to
+   anything that outlives the call (module-level names, function attributes, arguments; no memoising decorator). Both tables are
+   GENERATED from the source on every run. *)
+Theorem psd_microporous_default_adsorbate_is_documented :
+  psd_microporous_adsorbate_model =
+    [("adsorbate_model is None",
+      [("molecular_diameter", FromProperty "molecular_diameter"); ("polarizability", FromProperty "polarizability");
+       ("magnetic_susceptibility", FromProperty "magnetic_susceptibility"); ("surface_density", FromProperty "surface_density");
+       ("liquid_density", FromMethodAtIsothermTemperature "liquid_density"); ("adsorbate_molar_mass", FromMethod "molar_mass")])]%string.
+Proof. exact adsorbate_model_documented_l. Qed.
+Print Assumptions psd_microporous_default_adsorbate_is_documented.
+Theorem psd_micro_keeps_no_state_between_calls : psd_micro_module_writes = [].
+Proof. exact module_keeps_no_state_l. Qed.
+Print Assumptions psd_micro_keeps_no_state_between_calls.
+(* hence the record of a default call is a function of THIS call's adsorbate reads and temperature only, and its cumulative pore volume
+   is the loading as liquid volume at the isotherm's own temperature *)
+Theorem psd_microporous_default_adsorbate_record : forall (prop method0 : string -> R) (methodT : string -> R -> R) T,
+  default_hkads prop method0 methodT T =
+    Some (mk_hkads RNum (prop "molecular_diameter"%string) (prop "polarizability"%string) (prop "magnetic_susceptibility"%string)
+                   (prop "surface_density"%string) (methodT "liquid_density"%string T) (method0 "molar_mass"%string)).
+Proof. exact default_hkads_l. Qed.
+Print Assumptions psd_microporous_default_adsorbate_record.
+Theorem psd_microporous_default_cumulative_is_liquid_volume_at_isotherm_temperature :
+  forall (prop method0 : string -> R) (methodT : string -> R -> R) T ads (W P Ld : list R),
+  default_hkads prop method0 methodT T = Some ads -> (length W <= length Ld)%nat -> forall i, (i + 1 < length W)%nat ->
+  nth i (snd (hk_tail RNum ads W P Ld)) 0 = nth (i + 1) Ld 0 * method0 "molar_mass"%string / methodT "liquid_density"%string T / 1000.
+Proof. exact default_cumulative_l. Qed.
+Print Assumptions psd_microporous_default_cumulative_is_liquid_volume_at_isotherm_temperature.
+
 (* widths are non-decreasing in pressure on a branch where the potential increases; PARTIAL: which branch Brent lands on *)
 Theorem widths_nondecreasing_partial : forall (phi : R -> R) a b L1 L2 p1 p2,
   (forall x y, a <= x -> x < y -> y <= b -> phi x < phi y) ->
